@@ -739,3 +739,14 @@ Proof.
   intros uni client m R. destruct (oreach_inv _ _ _ R) as ((n & K & B & I) & _ & _).
   eapply out_no_lost_wakeup_inv; eauto using first_outgoing_range.
 Qed.
+
+(** ** Wake-ups exactly when the limit allows a stream: in every reachable state the head of the
+    open queue holds a wake-up token if and only if a stream can be opened; nobody else holds one *)
+Theorem out_wakeup_iff_credit : forall uni client m w t q, oreach uni client m ->
+  o_queue m = (w, t) :: q ->
+  (t = true <-> o_next m <= o_max m) /\ Forall (fun e => snd e = false) q.
+Proof.
+  intros uni client m w t q R Q. destruct (oreach_inv _ _ _ R) as ((n & K & B & I) & _ & _).
+  destruct I as (_ & _ & _ & Ht & _). unfold head_tok in Ht. rewrite Q in Ht. destruct Ht as [Ht Hq].
+  split; [|exact Hq]. subst t. apply Z.leb_le.
+Qed.
